@@ -29,7 +29,6 @@ var auditedPrunes = map[string]string{
 	"pkg/dsl.validateRecordFieldNames/case *RecordDefinition":                  "field names are checked at the record; records do not nest",
 	"pkg/dsl.validateProtocolSequenceNames/case *ProtocolDefinition":           "step names are checked at the protocol; protocols do not nest",
 	"pkg/dsl.containsOpenGeneric/case *SimpleType":                             "search: stops descending once an open generic parameter has been found",
-	"pkg/dsl.validateUnionCases/case *SimpleType":                              "type arguments are checked through the instantiated definition (ResolvedDefinition carries them after convertGenericReferences)",
 	"pkg/dsl.removeUnusedDeclarationPatterns/case *MemberAccessExpression":     "search: stops once a use of the declared variable has been found",
 	"pkg/dsl.GetProtocolSchema/case TypeDefinition":                            "a definition already added to the schema is not visited again (memo on visitedTypeDefinitions)",
 	// evolution analyser (partial-descent mode): paths that visit nothing further
